@@ -1,5 +1,6 @@
 // C15 -- interpolation hits its end points and SLERP follows the geodesic.
 #include "vf_manif.h"
+#include <cstring>
 #include "vf_rat.h"
 
 using namespace vf;
@@ -141,6 +142,33 @@ static void check(Chk& k, const Spec& s, const Case& c, Prec prec) {
     // coordinates of g incl. the |v||t| cross term of SGal3 (the inverse of g*A goes through p - t v)
     const std::vector<LD> Sg = scale_mul(scale_mul(ref_lin_scale_c(s, toVL(G.coeffs())), lin_scale_of(s, MatL(MG.cwiseAbs()))), S);
     k.expect("slerp left-equivariant", (double)ref_group_err(s, ref_mat(s, toVL(lhs.coeffs()), prec), ref_mat(s, toVL(rhs.coeffs()), prec), Sg), tol, "g*slerp(A,B,t) != slerp(g*A,g*B,t)");
+  }
+  // ---- call history: consecutive SLERP calls that share exactly one end point with the previous call (a segment-wise
+  //      trajectory A->C, B->C, ...) obey the same law, and repeating the first call reproduces its result bit for bit
+  {
+    const GroupT C = A.rplus(Dt * Scalar(0.5));
+    const VecL cc = toVL(C.coeffs());
+    const MatL MC = ref_mat(s, cc, prec);
+    auto law = [&](const GroupT& P, const MatL& MP, const GroupT& Q, const MatL& MQ, const std::string& name) {
+      const GroupT r = manif::interpolate_slerp(P, Q, t);
+      VecL d;
+      if (!ref_log(s, MatL(ref_inv(s, MP, prec) * MQ), d, prec)) { k.label("slerp history oracle inconclusive"); return; }
+      const MatL want = MP * ref_exp(s, VecL(d * (LD)t), prec);
+      k.expect("slerp history:" + name, (double)ref_group_err(s, ref_mat(s, toVL(r.coeffs()), prec), want, S), tol,
+               "SLERP called right after a call that shares one end point is not P*exp(t*log(P^-1*Q)) (" + name + ")");
+    };
+    const GroupT first = manif::interpolate_slerp(A, B, t);
+    law(A, MA, C, MC, "(A,B) then (A,C)");
+    law(B, MB, C, MC, "(A,C) then (B,C)");
+    law(B, MB, A, MA, "(B,C) then (B,A)");
+    const GroupT again = manif::interpolate_slerp(A, B, t);
+    k.require("slerp history: repeatable", std::memcmp(first.data(), again.data(), R * sizeof(Scalar)) == 0, "interpolate_slerp(A,B,t) depends on the calls made in between");
+    for (int q = 0; q < 3; ++q) {
+      const GroupT r1 = manif::interpolate(A, B, t, kMethods[q], ta, tb);
+      (void)manif::interpolate(A, C, t, kMethods[q], ta, tb); (void)manif::interpolate(C, B, t, kMethods[q], tb, ta);
+      const GroupT r2 = manif::interpolate(A, B, t, kMethods[q], ta, tb);
+      k.require(std::string("history: repeatable:") + kMethodName[q], std::memcmp(r1.data(), r2.data(), R * sizeof(Scalar)) == 0, std::string(kMethodName[q]) + ": interpolate(A,B,t) depends on the calls made in between");
+    }
   }
   // ---- smoothing polynomial
   {
